@@ -19,11 +19,17 @@ def main() -> int:
             print("setup: some Coq files did not build:")
             for e in r["errors"][:10]:
                 print("  ", e["file"], e["line"], e["stmt"], e["msg"][:200])
-        r2 = core.make(["Model/Units.vo"])
-        if not r2["ok"]:
-            print("setup: the model does not build")
-            print(r2["log"][-2000:])
-            return 1
-        ok, msg = core.ensure_modelrun()
-        print("modelrun:", msg)
-        return 0 if ok else 1
+        import glob, os
+        rc = 0
+        for path in sorted(glob.glob(os.path.join(core.COQ, "Model", "Units_*.v"))):
+            area = os.path.basename(path)[len("Units_"):-2]
+            r2 = core.make([f"Model/Units_{area}.vo"])
+            if not r2["ok"]:
+                print(f"setup: model area {area} does not build")
+                print(r2["log"][-1500:])
+                rc = 1
+                continue
+            ok, msg = core.ensure_modelrun(area)
+            print(f"modelrun_{area}:", msg)
+            rc = rc or (0 if ok else 1)
+        return rc
